@@ -30,6 +30,8 @@ CONFIGS = {
                                               max_notifications=2), 7),
     ('n=3 min1 max3 hi1.0 pending opens', cfg(3, 1, 3, 1.0, ops=TRAFFIC + ['Open'], advs=[2, 3], max_out=4, open_mode='pending', ok_first=1), 7),
     ('n=3 min1 max2 hi1.0 jitter', cfg(3, 1, 2, 1.0, ops=TRAFFIC, advs=[1], max_out=3, jitter_min=1, jitter_max=2, key_timers=True), 7),
+    ('n=2 min1 max2 hi1.0 a dead member stays active, a new member joins, load rises',
+     cfg(2, 1, 2, 1.0, extra=1, ops=TRAFFIC + ['Down', 'Join'], advs=[3], max_out=4, max_down=1, max_notifications=1), 8),
     ('n=3 min2 max3 hi2.0 jitter round with a pending open and a member leaving',
      cfg(3, 2, 3, 2.0, ops=['D', 'C', 'Adv', 'Open', 'Leave'], advs=[1], max_out=2, jitter_min=1, jitter_max=2, key_timers=True,
          open_mode='pending', ok_first=2, max_notifications=1), 7),
